@@ -3019,7 +3019,8 @@ class sptensor:
                 return self.copy()
             csubs = self.subs
             cvals = self.vals * self._dense_vals_at_subs(other)
-            return ttb.sptensor(csubs, cvals, self.shape)
+            keep = cvals[:, 0] != 0
+            return ttb.sptensor(csubs[keep], cvals[keep], self.shape)
         if isinstance(other, ttb.ktensor):
             csubs = self.subs
             cvals = np.zeros(self.vals.shape)
@@ -3033,7 +3034,8 @@ class sptensor:
                     v = other.factor_matrices[n][:, r][:, None]
                     tvals = tvals * v[csubs[:, n]]
                 cvals += tvals
-            return ttb.sptensor(csubs, cvals, self.shape)
+            keep = cvals[:, 0] != 0
+            return ttb.sptensor(csubs[keep], cvals[keep], self.shape)
         assert False, "Sptensor cannot be multiplied by that type of object"
 
     def __rmul__(self, other):
